@@ -24,7 +24,7 @@ RULE = ("case = chunk of (start, stop, dt, reference, direction) combinations; t
         "reference in {none, start-5, start+3}; every combination is stepped Nsteps+2 times and probed at steps -5..Nsteps+5. Non-trivial: Nsteps >= 1; "
         "distinct by (duration, dt, direction, reference offset).")
 MANDATORY = ["forward", "reversed", "dt_not_dividing", "explicit_reference", "negative_steps_probed", "invariant_evaluations",
-             "period_spellings_compared", "malformed_rejected", "resets_checked"]
+             "period_spellings_compared", "malformed_rejected", "resets_checked", "positioned_clock_updates"]
 ASSUMPTIONS = ["step2nctime is exercised with the documented units s, m, h only",
                "negative periods and a trailing newline are accepted by normalize_period and are not called malformed by the property"]
 EXHAUSTIVE = {"quick": False, "thorough": False}
@@ -144,6 +144,21 @@ def _check_combo0(tk, S: int, E: int, d: int, R: int | None, dtspell: Any, V: li
             bad(f"first update after reset(): step {t.step}, clock {t.time}")
     except InvariantBroken as e:
         bad("after reset(): running clock != step2time(step) (icontract invariant)", err=str(e)[:200])
+    # the warm start positions the clock by assignment (Model.__init__: timer.step = 0; timer.time = step2time(0)) and steps on
+    try:
+        k0 = 0
+        tt0 = t.step2time(k0)  # computed first: the invariant is evaluated around every public call
+        t.step = k0
+        t.time = tt0
+        for k in range(1, 4):
+            t.update()
+            sit["positioned_clock_updates"] = sit.get("positioned_clock_updates", 0) + 1
+            if t.step != k0 + k or sec(t.time) != S + sgn * (k0 + k) * d or abs(t.nctime("s") - (S + sgn * (k0 + k) * d - Rm)) > 1e-9:
+                bad(f"clock positioned at step {k0} by assignment (as the warm start does), after {k} updates: step {t.step}, clock {t.time}, nctime {t.nctime('s')}; "
+                    f"expected step {k0 + k} at {EPOCH + np.timedelta64(S + sgn * (k0 + k) * d, 's')}")
+                break
+    except InvariantBroken as e:
+        bad("clock positioned by assignment (as the warm start does): running clock != step2time(step) after update()", err=str(e)[:200])
     for n in range(-5, min(ns, 50) + 6):
         cnt["probes"] = cnt.get("probes", 0) + 1
         if n < 0:
